@@ -146,7 +146,7 @@ def compare(name, session, spec=None):
             want = build(pinned["const"], pinned["coeffs"])
             diff = z3.simplify((live_t if z3.is_expr(live_t) else z3.IntVal(live_t)) - want)
             if z3.is_int_value(diff) and diff.as_long() == 0:
-                session.queries += 1  # decided by term rewriting (identical linear forms)
+                session.rewritten += 1  # decided by term rewriting (identical linear normal forms)
                 continue
             vs = list(_vars_of([diff]).values())
             session.holds(f"{label}:{what}", assumptions, diff == 0, show=vs)
